@@ -230,6 +230,18 @@ func ToGNMITypedValue(v *sdcpb.TypedValue) *gnmi.TypedValue {
 	return nil
 }
 
+// normalizeDecimal64 drops the trailing zeros of the fraction
+func normalizeDecimal64(digits int64, precision uint32) (int64, uint32) {
+	if digits == 0 {
+		return 0, 0
+	}
+	for precision > 0 && digits%10 == 0 {
+		digits /= 10
+		precision--
+	}
+	return digits, precision
+}
+
 func EqualTypedValues(v1, v2 *sdcpb.TypedValue) bool {
 	if v1 == nil {
 		return v2 == nil
@@ -324,10 +336,10 @@ func EqualTypedValues(v1, v2 *sdcpb.TypedValue) bool {
 			if v1 == nil || v2 == nil {
 				return false
 			}
-			if v1.DecimalVal.GetDigits() != v2.DecimalVal.GetDigits() {
-				return false
-			}
-			return v1.DecimalVal.GetPrecision() == v2.DecimalVal.GetPrecision()
+			// 1.5 might come as 15 / 1 or 1500 / 3 (e.g. from a device): compare the data, not the representations
+			d1, p1 := normalizeDecimal64(v1.DecimalVal.GetDigits(), v1.DecimalVal.GetPrecision())
+			d2, p2 := normalizeDecimal64(v2.DecimalVal.GetDigits(), v2.DecimalVal.GetPrecision())
+			return d1 == d2 && p1 == p2
 		default:
 			return false
 		}
